@@ -5,12 +5,13 @@ usage: python -m harness.w_fp job.json outprefix          (fresh interpreter, PY
 job = {"mode": "claripy" | "z3ref",      z3ref: self-test of spec/FP.tla, the recorded value comes from an independent
                                          z3 API term (claripy is not imported at all)
        "gen": "pool" | "rand" | "list",  pool: deterministic pool-exhaustive cases of one group; rand: seeded extras
-       "fmt": "d" | "f", "group": "arith"|"cmp"|"unary"|"toint"|"fptofp"|"inttofp"|"bits"|"cancel"|"d2", "ops": [...],
+       "fmt": "d" | "f", "group": "arith"|"cmp"|"unary"|"toint"|"fptofp"|"inttofp"|"bits"|"cancel"|"mixed"|"sortobj"|"d2", "ops": [...],
        "pool": "small" | "quick" | "full" | "closure", "part": k, "nparts": n, "solved": N (every N-th case, 0 never), "fresh_every": N, "seed": s, "n": count,
        "cases": [...] (gen=list)}
 
 Event (one ndjson line, validated by spec/TraceFP.tla; every field always present, bit patterns LSB-first lists):
-  op rm eb sb eb2 sb2 size a b  iop irm ia ib ipos  how  fold out  sv solved sout sm  zs
+  op rm eb sb eb2 sb2 size a b  iop irm ia ib ipos  how  fold out  sv solved sout sm  zs  so mix
+  (so: which FSort object built the constants; mix: operand kept as a constant on the solved side)
 Python records; the verdict is TLC's.
 """
 from __future__ import annotations
@@ -171,14 +172,15 @@ def pool_int(size, level="quick"):
 # case generation.  A case is the event skeleton with operands as integers.
 # ----------------------------------------------------------------------------------------------
 
-def case(op, rm, fmt, a, b=None, fmt2=None, size=0, how="fn", inner=None, wa=None):
+def case(op, rm, fmt, a, b=None, fmt2=None, size=0, how="fn", inner=None, wa=None, so="const", mix=""):
     eb, sb = FMT[fmt]
     eb2, sb2 = FMT[fmt2 or fmt]
     c = {"op": op, "rm": rm, "fmt": fmt, "fmt2": fmt2 or fmt, "eb": eb, "sb": sb, "eb2": eb2, "sb2": sb2, "size": size,
          "a": a, "wa": wa if wa is not None else eb + sb, "b": b, "how": how,
-         "iop": "", "irm": "RNE", "ia": 0, "ib": None, "ipos": 0}
+         "iop": "", "irm": "RNE", "ia": 0, "ib": None, "ipos": 0, "so": "const", "mix": ""}
     if inner:
         c.update(inner)
+    c["so"], c["mix"] = so, mix
     return c
 
 
@@ -251,6 +253,55 @@ def gen_pool(job):
             # bit-cast round trips: fpToFP(fpToIEEEBV(x), sort) and fpToIEEEBV(fpToFP(bv, sort)) -- the identity
             yield case("bvtofp", "RNE", fmt, 0, how=how, inner={"iop": "toieee", "irm": "RNE", "ia": x, "ib": None, "ipos": 1})
             yield case("toieee", "RNE", fmt, 0, how=how, inner={"iop": "bvtofp", "irm": "RNE", "ia": x, "ib": None, "ipos": 1})
+    elif grp == "mixed":
+        # one operand symbolic (pinned), the other a CONSTANT FPV inside the symbolic expression: the constant is not
+        # folded and reaches Z3 through claripy's translation of FPV constants (signed zeros, subnormals, inf, NaN ..).
+        # Index slices of the quick pool (all < 30, so the same (op, rm, a, b, how) events exist in the arith/cmp
+        # groups and known fold failures keep their signatures).
+        Pq = pool_fp(fmt, "quick")
+        CI = [1, 0, 2, 8, 9, 10, 12, 19]                   # -0.0 +0.0 min-subnormal +inf -inf NaN -1.0 0.1
+        SI = [0, 1, 3, 5, 6, 9, 10, 11, 12, 19, 20]
+        for op in ops or (ARITH + CMP):
+            for rm in (RMS if op in ARITH else ["RNE"]):
+                for side in ("a", "b"):
+                    for ci in CI:
+                        for si in SI:
+                            i, j = (ci, si) if side == "a" else (si, ci)
+                            if op in ARITH:
+                                how = "meth" if rm == "RNE" and (i + j) % 3 == 0 else "fn"
+                            else:
+                                how = "meth" if (i + j) % 2 == 0 else "fn"
+                            yield case(op, rm, fmt, Pq[i], Pq[j], how=how, mix=side)
+    elif grp == "sortobj":
+        # float32 events built with FSort objects that are equal to FSORT_FLOAT without being that object
+        # (FSort("FLOAT", 8, 24), pickle round trip); RNE / exact operators only (correct on the pinned tree)
+        Pd, Pf = pool_fp("d", "quick"), pool_fp("f", "quick")
+        SL = [Pf[k] for k in (0, 1, 3, 5, 6, 9, 10, 11, 12, 19, 20, 24)]
+        for so in ("new", "pickle"):
+            for x in Pd:
+                yield case("fpv", "RNE", "d", x, fmt2="f", so=so)
+                inner = {"iop": "fpv", "irm": "RNE", "ia": x, "ib": None, "ipos": 1}
+                yield case("toieee", "RNE", "f", 0, inner=inner, so=so)
+                yield case("tosbv", "RNE", "f", 0, size=64, inner=inner, so=so)
+                yield case("isinf", "RNE", "f", 0, inner=inner, so=so)
+                for y in (Pf[11], Pf[24], Pf[19]):            # 1.0f 2^24 0.1f : symbolic second operand
+                    yield case("lt", "RNE", "f", 0, y, inner=inner, so=so)
+                    yield case("eq", "RNE", "f", 0, y, inner=inner, so=so)
+                    yield case("add", "RNE", "f", 0, y, inner=inner, so=so)
+                yield case("fptofp", "RNE", "d", x, fmt2="f", so=so)
+            for x in SL:
+                for y in SL:
+                    for op in ("add", "sub", "mul", "lt", "eq"):
+                        yield case(op, "RNE", "f", x, y, so=so)
+            for x in Pf:
+                yield case("tosbv", "RNE", "f", x, size=32, so=so)
+                yield case("fptofp", "RNE", "f", x, fmt2="d", so=so)
+                yield case("sqrt", "RNE", "f", x, so=so)
+                yield case("neg", "RNE", "f", x, so=so)
+                yield case("toieee", "RNE", "f", x, so=so)
+            for op in ("sbvtofp", "ubvtofp"):
+                for x in pool_int(32, "quick"):
+                    yield case(op, "RNE", "f", x, size=32, wa=32, so=so)
     elif grp == "d2":
         # depth-2 trees: outer arithmetic/comparison/conversion over one inner arithmetic result (deterministic sample)
         rng = random.Random(4242 + (0 if fmt == "d" else 1))
@@ -347,7 +398,18 @@ def _claripy():
                                   "RTZ": RM.RM_TowardsZero, "RTP": RM.RM_TowardsPositiveInf,
                                   "RTN": RM.RM_TowardsNegativeInf},
                    sort={"d": claripy.FSORT_DOUBLE, "f": claripy.FSORT_FLOAT})
+        import pickle
+        # sort objects that are EQUAL to the module constants without being the same object
+        _cl["so"] = {("d", "const"): claripy.FSORT_DOUBLE, ("f", "const"): claripy.FSORT_FLOAT,
+                     ("d", "new"): claripy.fp.FSort("DOUBLE", 11, 53), ("f", "new"): claripy.fp.FSort("FLOAT", 8, 24),
+                     ("d", "pickle"): pickle.loads(pickle.dumps(claripy.FSORT_DOUBLE)),
+                     ("f", "pickle"): pickle.loads(pickle.dumps(claripy.FSORT_FLOAT))}
     return _cl["c"], _cl["rm"], _cl["sort"]
+
+
+def sort_of(fmt, so="const"):
+    _claripy()
+    return _cl["so"][(fmt, so)]
 
 
 def apply_op(op, rm, x, y, c, how):
@@ -380,13 +442,13 @@ def apply_op(op, rm, x, y, c, how):
     if op == "toubv":
         return x.val_to_bv(c["size"], False, r) if meth else claripy.fpToUBV(r, x, c["size"])
     if op == "fptofp":
-        return x.to_fp(SORT[c["fmt2"]], r) if meth else claripy.fpToFP(r, x, SORT[c["fmt2"]])
+        return x.to_fp(sort_of(c["fmt2"], c.get("so", "const")), r) if meth else claripy.fpToFP(r, x, sort_of(c["fmt2"], c.get("so", "const")))
     if op == "sbvtofp":
-        return x.val_to_fp(SORT[c["fmt2"]], True, r) if meth else claripy.fpToFP(r, x, SORT[c["fmt2"]])
+        return x.val_to_fp(sort_of(c["fmt2"], c.get("so", "const")), True, r) if meth else claripy.fpToFP(r, x, sort_of(c["fmt2"], c.get("so", "const")))
     if op == "ubvtofp":
-        return x.val_to_fp(SORT[c["fmt2"]], False, r) if meth else claripy.fpToFPUnsigned(r, x, SORT[c["fmt2"]])
+        return x.val_to_fp(sort_of(c["fmt2"], c.get("so", "const")), False, r) if meth else claripy.fpToFPUnsigned(r, x, sort_of(c["fmt2"], c.get("so", "const")))
     if op == "bvtofp":
-        return x.raw_to_fp() if meth else claripy.fpToFP(x, SORT[c["fmt2"]])
+        return x.raw_to_fp() if meth else claripy.fpToFP(x, sort_of(c["fmt2"], c.get("so", "const")))
     if op == "toieee":
         return x.raw_to_bv() if meth else claripy.fpToIEEEBV(x)
     raise ValueError(op)
@@ -395,11 +457,20 @@ def apply_op(op, rm, x, y, c, how):
 INT_IN = ("sbvtofp", "ubvtofp", "bvtofp")
 
 
-def conc_operand(op, p, w, fmt):
+def conc_operand(op, p, w, fmt, so="const"):
     claripy, _, SORT = _claripy()
     if op in INT_IN:
         return claripy.BVV(p, w)
-    return claripy.FPV(b2float(p, fmt), SORT[fmt])
+    return claripy.FPV(b2float(p, fmt), sort_of(fmt, so))
+
+
+def inner_ast(c, ix, iy):
+    """the inner operation of a depth-2 case; iop = "fpv" is a numeral written as a double, constructed at the
+    operand format (always concrete)"""
+    claripy, _, _ = _claripy()
+    if c["iop"] == "fpv":
+        return claripy.FPV(b2float(c["ia"], "d"), sort_of(c["fmt"], c.get("so", "const")))
+    return apply_op(c["iop"], c["irm"], ix, iy, c, "fn")
 
 
 def result_bits(r, c):
@@ -437,19 +508,22 @@ def fold(c):
     try:
         op = c["op"]
         if op == "fpv":
-            r = claripy.FPV(b2float(c["a"], "d"), SORT[c["fmt2"]])
+            r = claripy.FPV(b2float(c["a"], "d"), sort_of(c["fmt2"], c.get("so", "const")))
         elif op == "fpfp":
             eb, sb = c["eb2"], c["sb2"]
             p = c["a"]
             r = claripy.fpFP(claripy.BVV(p >> (eb + sb - 1), 1), claripy.BVV((p >> (sb - 1)) & ((1 << eb) - 1), eb),
                              claripy.BVV(p & ((1 << (sb - 1)) - 1), sb - 1))
         else:
-            x = conc_operand(op, c["a"], c["wa"], c["fmt"])
-            y = conc_operand(op, c["b"], c["wa"], c["fmt"]) if c["b"] is not None else None
+            so = c.get("so", "const")
+            x = conc_operand(op, c["a"], c["wa"], c["fmt"], so)
+            y = conc_operand(op, c["b"], c["wa"], c["fmt"], so) if c["b"] is not None else None
             if c["iop"]:
-                ix = conc_operand(c["iop"], c["ia"], c["wa"], c["fmt"])
-                iy = conc_operand(c["iop"], c["ib"], c["wa"], c["fmt"]) if c["ib"] is not None else None
-                inner = apply_op(c["iop"], c["irm"], ix, iy, c, "fn")
+                ix = iy = None
+                if c["iop"] != "fpv":
+                    ix = conc_operand(c["iop"], c["ia"], c["wa"], c["fmt"], so)
+                    iy = conc_operand(c["iop"], c["ib"], c["wa"], c["fmt"], so) if c["ib"] is not None else None
+                inner = inner_ast(c, ix, iy)
                 if c["ipos"] == 1:
                     x = inner
                 else:
@@ -481,16 +555,25 @@ def _pin(sym, op, p, w, fmt):
     return claripy.fpToIEEEBV(sym) == claripy.BVV(p, w)
 
 
+_mixed = {}      # mixed-route expressions contain a constant and are used for a run of consecutive cases: keep one
+
+
 def solved(c, fresh):
     """operands symbolic, pinned by constraints; value obtained through a claripy solver (claripy's Z3 translation
     and value abstraction).  One long-lived SolverCacheless per expression, pins as extra constraints; `fresh`:
-    a new claripy.Solver() with the pins added as constraints."""
+    a new claripy.Solver() with the pins added as constraints.
+    Mixed route (c["mix"] = "a" | "b", or an inner "fpv" numeral): that operand stays a CONSTANT FPV inside the
+    symbolic expression, so it is not folded and reaches Z3 through claripy's translation of constants."""
     claripy, _, _ = _claripy()
     try:
         op = c["op"]
+        so, mix = c.get("so", "const"), c.get("mix", "")
+        const_inner = c["iop"] == "fpv"
         key = (op, c["rm"], c["fmt"], c["fmt2"], c["size"], c["how"], c["iop"], c["irm"], c["ipos"], c["b"] is None,
-               c["ib"] is None)
-        ent = _solvers.get(key)
+               c["ib"] is None, so, mix, c["a"] if mix == "a" else c["b"] if mix == "b" else None,
+               c["ia"] if const_inner else None)
+        cache = _mixed if (mix or const_inner) else _solvers
+        ent = cache.get(key)
         if ent is None:
             syms = {}
             if op == "fpfp":
@@ -500,23 +583,32 @@ def solved(c, fresh):
                 expr = claripy.fpFP(syms["sg"], syms["ex"], syms["mn"])
             else:
                 x = y = None
-                if not (c["iop"] and c["ipos"] == 1):
+                if mix == "a":
+                    x = conc_operand(op, c["a"], c["wa"], c["fmt"], so)
+                elif not (c["iop"] and c["ipos"] == 1):
                     x = syms["a"] = _sym("a", op, c["wa"], c["fmt"])
-                if c["b"] is not None and not (c["iop"] and c["ipos"] == 2):
+                if mix == "b":
+                    y = conc_operand(op, c["b"], c["wa"], c["fmt"], so)
+                elif c["b"] is not None and not (c["iop"] and c["ipos"] == 2):
                     y = syms["b"] = _sym("b", op, c["wa"], c["fmt"])
                 if c["iop"]:
-                    ix = syms["c"] = _sym("c", c["iop"], c["wa"], c["fmt"])
-                    iy = None
-                    if c["ib"] is not None:
-                        iy = syms["d"] = _sym("d", c["iop"], c["wa"], c["fmt"])
-                    inner = apply_op(c["iop"], c["irm"], ix, iy, c, "fn")
+                    ix = iy = None
+                    if not const_inner:
+                        ix = syms["c"] = _sym("c", c["iop"], c["wa"], c["fmt"])
+                        if c["ib"] is not None:
+                            iy = syms["d"] = _sym("d", c["iop"], c["wa"], c["fmt"])
+                    inner = inner_ast(c, ix, iy)
                     if c["ipos"] == 1:
                         x = inner
                     else:
                         y = inner
+                if not syms:
+                    return "", None            # nothing symbolic: there is no solved route for this case
                 expr = apply_op(op, c["rm"], x, y, c, c["how"])
             ent = (claripy.SolverCacheless(), expr, syms)
-            _solvers[key] = ent
+            if cache is _mixed:
+                _mixed.clear()
+            cache[key] = ent
         sc, expr, syms = ent
         if op == "fpfp":
             eb, sb = c["eb2"], c["sb2"]
@@ -527,6 +619,8 @@ def solved(c, fresh):
         else:
             vals = {"a": (c["a"], op), "b": (c["b"], op), "c": (c["ia"], c["iop"]), "d": (c["ib"], c["iop"])}
             pins = [_pin(sy, vals[nm][1], vals[nm][0], c["wa"], c["fmt"]) for nm, sy in syms.items()]
+        if not expr.symbolic:
+            return "NotSymbolic", []
         if fresh:
             s = claripy.Solver()
             for p in pins:
@@ -598,7 +692,10 @@ def z3_ref(c):
         x = z3_operand(op, c["a"], c["wa"], c)
         y = z3_operand(op, c["b"], c["wa"], c) if c["b"] is not None else None
         if c["iop"]:
-            ix = z3_operand(c["iop"], c["ia"], c["wa"], c)
+            if c["iop"] == "fpv":
+                ix = z3.fpBVToFP(z3.BitVecVal(c["ia"], 64), z3.FPSort(11, 53))
+            else:
+                ix = z3_operand(c["iop"], c["ia"], c["wa"], c)
             iy = z3_operand(c["iop"], c["ib"], c["wa"], c) if c["ib"] is not None else None
             inner = z3_term(c["iop"], c["irm"], ix, iy, {**c, "eb2": c["eb"], "sb2": c["sb"]})
             if c["ipos"] == 1:
@@ -633,16 +730,17 @@ def event_of(c):
     w = c["wa"]
     return {"op": c["op"], "rm": c["rm"], "eb": c["eb"], "sb": c["sb"], "eb2": c["eb2"], "sb2": c["sb2"], "size": c["size"],
             "a": bits(c["a"], w), "b": bits(c["b"], w) if c["b"] is not None else [],
-            "iop": c["iop"], "irm": c["irm"], "ia": bits(c["ia"], w) if c["iop"] else [],
+            "iop": c["iop"], "irm": c["irm"], "ia": bits(c["ia"], 64 if c["iop"] == "fpv" else w) if c["iop"] else [],
             "ib": bits(c["ib"], w) if c["iop"] and c["ib"] is not None else [], "ipos": c["ipos"], "how": c["how"],
-            "fold": [], "out": "ok", "sv": 0, "solved": [], "sout": "", "sm": "", "zs": 2}
+            "fold": [], "out": "ok", "sv": 0, "solved": [], "sout": "", "sm": "", "zs": 2, "so": c.get("so", "const"),
+            "mix": c.get("mix", "")}
 
 
 def case_of_event(ev):
     """inverse of event_of (the engine rebuilds a case from a recorded event for replay / second opinion)"""
     fm = {11: "d", 8: "f"}
     c = case(ev["op"], ev["rm"], fm[ev["eb"]], unbits(ev["a"]), unbits(ev["b"]) if ev["b"] else None, fmt2=fm[ev["eb2"]],
-             size=ev["size"], how=ev["how"], wa=len(ev["a"]))
+             size=ev["size"], how=ev["how"], wa=len(ev["a"]), so=ev.get("so", "const"), mix=ev.get("mix", ""))
     if ev["iop"]:
         c.update({"iop": ev["iop"], "irm": ev["irm"], "ia": unbits(ev["ia"]), "ib": unbits(ev["ib"]) if ev["ib"] else None,
                   "ipos": ev["ipos"]})
@@ -661,9 +759,12 @@ def run_case(c, mode, want_solved, fresh):
         return ev
     ev["out"], ev["fold"] = fold(c)
     if want_solved and c["op"] != "fpv":
-        ev["sv"] = 1
-        ev["sm"] = "solver" if fresh else "cacheless"
-        ev["sout"], ev["solved"] = solved(c, fresh)
+        sout, sbits = solved(c, fresh)
+        if sbits is not None:
+            ev["sv"] = 1
+            ev["sm"] = ("mixed-" + c["mix"]) if c.get("mix") else "mixed-fpv" if c["iop"] == "fpv" else \
+                "solver" if fresh else "cacheless"
+            ev["sout"], ev["solved"] = sout, sbits
     return ev
 
 
